@@ -114,7 +114,9 @@ type Engine struct {
 	touched          map[ecs.Entity]bool
 	replica          map[ecs.Entity]*MEnt
 	replicaOK        bool
-	pendingDef       int // open batch queries with deferred events
+	lensActive       bool       // see Plan.Lens
+	lensFirst        *Violation // the mismatch that started lens mode
+	pendingDef       int        // open batch queries with deferred events
 	canarySeq        uint64
 	valSeq           uint64
 	suspect          bool
@@ -397,21 +399,123 @@ func (e *Engine) Run(tr *Trace) (v *Violation) {
 			setHookPoint(nil)
 		}
 		if r := recover(); r != nil {
+			if e.lensActive {
+				v = e.lensFirst // model and world had already parted: whatever broke afterwards proves nothing new
+				return
+			}
 			// a panic that escaped: from the oracle's own observation calls (which are legal reads)
 			buf := make([]byte, 4096)
 			n := runtime.Stack(buf, false)
 			v = e.viol("oracle-panic", nil, "observation panicked: %v\n%s", r, buf[:n])
 		}
 	}()
+	lens := e.P.Lens == "C11" && e.P.Listener == "all" && e.P.EventReplica
 	for i := range tr.Steps {
 		e.step = i
 		st := &tr.Steps[i]
+		if e.lensActive && st.Op == "reset" {
+			return e.lensFirst // Reset announces nothing by design: the replica cannot follow it
+		}
 		if v := e.doStep(st); v != nil {
-			return v
+			if !lens || (!e.lensActive && DirectlyAttributed(v, "C11")) {
+				return v
+			}
+			if e.lensFirst == nil {
+				e.lensFirst = v
+			}
+			switch v.Class {
+			case "unexpected-panic", "oracle-panic", "crash", "hang", "no-panic", "target-accepted", "second-relation-accepted", "lock-not-enforced":
+				// a call ended otherwise than the model expected: what it left behind is not covered by any event rule
+				return e.lensFirst
+			}
+			e.lensActive = true
+		}
+		if e.lensActive {
+			if lv := e.lensCheck(); lv != nil {
+				return lv
+			}
 		}
 		e.St.Steps++
 	}
+	if e.lensActive {
+		for _, q := range e.S.Open {
+			func() {
+				defer func() { recover() }()
+				q.Close()
+			}()
+		}
+		if lv := e.lensCheck(); lv != nil {
+			return lv
+		}
+		return e.lensFirst
+	}
 	return e.finish()
+}
+
+// lensCheck (Plan.Lens == "C11"): model and world have parted, so nothing the model says counts any more. What still
+// counts is C11's model-free core: the world rebuilt from the events that were actually delivered equals the world as
+// the public API shows it - every entity, its components, its target - whenever no query is open.
+func (e *Engine) lensCheck() *Violation {
+	s := e.S
+	got := s.Events
+	s.Events = nil
+	e.applyReplica(got)
+	if s.W.IsLocked() {
+		return nil
+	}
+	mk := func(format string, args ...interface{}) *Violation {
+		v := e.v(s, "event", "after a mismatch of another kind (%s: %s) the run went on; "+format,
+			append([]interface{}{e.lensFirst.Class, firstLine(e.lensFirst.Msg)}, args...)...)
+		v.Facts = append(v.Facts, "lens:C11")
+		return v
+	}
+	if !e.replicaOK {
+		return mk("the delivered event stream is not replayable (event for an unknown entity, double creation, or a removal whose component set differs)")
+	}
+	n := 0
+	var bad *Violation
+	q := s.W.Query(ecs.All())
+	for q.Next() {
+		n++
+		if bad != nil {
+			continue
+		}
+		h := q.Entity()
+		mask := q.Mask()
+		set, _ := s.maskToSet(&mask)
+		r := e.replica[h]
+		switch {
+		case r == nil:
+			bad = mk("entity %v exists, the delivered events never announced it", h)
+		case r.Cs != set:
+			bad = mk("entity %v has components %v, replaying the delivered events gives %v", h, listOf(set), listOf(r.Cs))
+		default:
+			if rel := e.M.relOf(set); rel >= 0 && s.Reg[rel] {
+				if t := s.W.Relations().Get(h, s.IDs[rel]); t != r.Target {
+					bad = mk("entity %v has target %v, replaying the delivered events gives %v", h, t, r.Target)
+				}
+			}
+		}
+	}
+	if bad != nil {
+		return bad
+	}
+	if n != len(e.replica) {
+		return mk("the world has %d entities, replaying the delivered events gives %d", n, len(e.replica))
+	}
+	return nil
+}
+
+func firstLine(s string) string {
+	for i := 0; i < len(s); i++ {
+		if s[i] == '\n' {
+			return s[:i]
+		}
+	}
+	if len(s) > 160 {
+		return s[:160]
+	}
+	return s
 }
 
 // StepOnce executes step i of the trace (for interleaving several engines in one goroutine).
@@ -649,6 +753,9 @@ func (e *Engine) checkRetention() *Violation {
 
 func (e *Engine) afterStep() *Violation {
 	s := e.S
+	if e.lensActive {
+		return nil // judged by lensCheck alone
+	}
 	if e.pendingRetention {
 		e.pendingRetention = false
 		// the GC ran before this step's operation (GC==1) or after it (GC==2); in both cases the model is consistent
@@ -668,7 +775,7 @@ func (e *Engine) afterStep() *Violation {
 			return v
 		}
 	}
-	for k := range e.touched {
+	for _, k := range sortedEntities(e.touched) { // sorted: the first mismatch reported must not depend on map order
 		if me, ok := e.M.ByH[k]; ok {
 			if v := e.checkEntity(s, me, "value"); v != nil {
 				return v
